@@ -984,7 +984,9 @@ class Server(utils.EventEmitter):
                         attribute_handle_in_error=request.attribute_handle,
                         error_code=att.ATT_INVALID_OFFSET_ERROR,
                     )
-                elif len(value) <= bearer.att_mtu - 1:
+                elif request.value_offset == 0 and len(value) <= bearer.att_mtu - 1:
+                    # Only refuse a Read Blob that starts the value: a client that already
+                    # holds the first part (read with a smaller ATT_MTU) must get the rest
                     response = att.ATT_Error_Response(
                         request_opcode_in_error=request.op_code,
                         attribute_handle_in_error=request.attribute_handle,
